@@ -585,6 +585,8 @@ def eval_dyad_join(a, b, backend):
         if a_is_1d_plus and b_is_1d_plus:
             if len(a) == 0:
                 return b
+            if len(b) == 0:
+                return a
             if a.shape[1:] == b.shape[1:]:
                 return bknp.concatenate((a,b))
 
